@@ -719,16 +719,24 @@ func siblingPredicates(c *Ctx) {
 		fmt.Sprintf("newScanner selects splitters by %v but assigning RS prepares the regex by %v: the two no longer partition RS the same way, so a regex splitter can run with a stale or nil regex", nsCases, rsCases))
 	// every non-first RS case stores recordSepRegex (SSA must-store per case is approximated: count of stores >= number of cases)
 	ssa1 := c.ssaFunc("interp", "interp.setSpecial")
+	// setSpecial and the setter helpers that belong to it alone
+	var regionFns []*ssa.Function
+	for g := range c.exclusiveRegion("interp", ssa1) {
+		regionFns = append(regionFns, g)
+	}
+	sort.Slice(regionFns, func(i, j int) bool { return fnKey(regionFns[i]) < fnKey(regionFns[j]) })
 	nStores := 0
 	nilStore := false
-	allInstrs(ssa1, func(in ssa.Instruction) {
-		if name, val := interpFieldStore(in); name == "recordSepRegex" {
-			nStores++
-			if isNilConst(val) {
-				nilStore = true
+	for _, g := range regionFns {
+		allInstrs(g, func(in ssa.Instruction) {
+			if name, val := interpFieldStore(in); name == "recordSepRegex" {
+				nStores++
+				if isNilConst(val) {
+					nilStore = true
+				}
 			}
-		}
-	})
+		})
+	}
 	semanticSiblingPredicates(c)
 	c.check(nStores >= 2 && !nilStore, "sibling-pred:RS-regex-assigned", ss.Pos(), "every RS case (re)assigns the separator regex seen by an active regex splitter, never to nil", fmt.Sprintf("assigning RS stores the separator regex in %d places for %d cases (nil store: %v): an active regex splitter, which holds a pointer to that field, would keep a stale regex or dereference nil", nStores, len(rsCases), nilStore))
 	// the separator text and its compiled form are committed together: after the text has been stored
@@ -737,10 +745,60 @@ func siblingPredicates(c *Ctx) {
 	for _, f := range []string{"fieldSep", "recordSep"} {
 		found := false
 		bad := token.NoPos
-		for _, b := range ssa1.Blocks {
-			for _, in := range b.Instrs {
-				if name, _ := interpFieldStore(in); name == f {
+		// a commit point: the store itself, or the call of a helper of the region that (transitively) stores the field;
+		// after a commit point no return of a possibly non-nil error may be reachable - other than handing on the
+		// result of the committing helper itself, which that helper's own check covers
+		storesF := map[*ssa.Function]bool{}
+		for changed := true; changed; {
+			changed = false
+			for _, g := range regionFns {
+				if storesF[g] {
+					continue
+				}
+				allInstrs(g, func(in ssa.Instruction) {
+					if name, _ := interpFieldStore(in); name == f {
+						storesF[g] = true
+					}
+					if ci, ok := in.(ssa.CallInstruction); ok {
+						if cal := ci.Common().StaticCallee(); cal != nil && storesF[cal] {
+							storesF[g] = true
+						}
+					}
+				})
+				if storesF[g] {
+					changed = true
+				}
+			}
+		}
+		for _, g := range regionFns {
+			for _, b := range g.Blocks {
+				for _, in := range b.Instrs {
+					var commitVal ssa.Value
+					isCommit := false
+					if name, _ := interpFieldStore(in); name == f {
+						isCommit = true
+					} else if ci, ok := in.(ssa.CallInstruction); ok {
+						if cal := ci.Common().StaticCallee(); cal != nil && storesF[cal] && cal != g {
+							isCommit = true
+							commitVal, _ = in.(ssa.Value)
+						}
+					}
+					if !isCommit {
+						continue
+					}
 					found = true
+					fromCommit := func(v ssa.Value) bool {
+						if commitVal == nil {
+							return false
+						}
+						if v == commitVal {
+							return true
+						}
+						if ex, ok := v.(*ssa.Extract); ok && ex.Tuple == commitVal {
+							return true
+						}
+						return false
+					}
 					for rb := range reachableFrom(b) {
 						if len(rb.Instrs) == 0 {
 							continue
@@ -748,10 +806,14 @@ func siblingPredicates(c *Ctx) {
 						if ret, ok := rb.Instrs[len(rb.Instrs)-1].(*ssa.Return); ok {
 							rr := retResults(ret)
 							if len(rr) > 0 && !isNilConst(rr[len(rr)-1]) {
-								if ph, isPhi := rr[len(rr)-1].(*ssa.Phi); isPhi {
+								last := rr[len(rr)-1]
+								if fromCommit(last) {
+									continue
+								}
+								if ph, isPhi := last.(*ssa.Phi); isPhi {
 									all := true
 									for _, e := range ph.Edges {
-										if !isNilConst(e) {
+										if !isNilConst(e) && !fromCommit(e) {
 											all = false
 										}
 									}
@@ -759,7 +821,7 @@ func siblingPredicates(c *Ctx) {
 										continue
 									}
 								}
-								bad = posOr(ret.Pos(), token.Pos(1))
+								bad = posOr(ret.Pos(), g.Pos())
 							}
 						}
 					}
